@@ -62,7 +62,7 @@ PROPS = {
     "C07": dict(
         rig="W7", runs=dict(quick=3000, thorough=100000),
         nontrivial_probes=["concurrent_channels", "tick_converted", "name_mapped"],
-        must_hit=["concurrent_channels", "tick_converted", "name_mapped", "several_end_positions"],
+        must_hit=["concurrent_channels", "tick_converted", "name_mapped", "several_end_positions", "restamped_drop_message"],
         rule="1-3 downstream channels each driven by its own goroutine through 1-5 generated packs (insert/delete/drop-partition/drop-collection/ticks, opening tick on first pack; a quarter of the packs list several end positions whose times are not increasing or missing), with/without replicate id, five name-mapping shapes, Map.Range order fixed per run; the downstream call is parked, so the scheduler interleaves the channels and decides completion order; up to 2 injected downstream rejections.",
         assumptions=["rig W7: real ChannelWriter.HandleReplicateMessage and replicateMessageManager; bytes are decoded with Milvus' ProtoUDFactory dispatcher; the downstream is a recording api.DataHandler", "equality is judged on the serialized request (after the reference name mapping) plus decoded begin/end timestamps"],
     ),
